@@ -185,6 +185,52 @@ def except_names(fn_node):
     return out
 
 
+
+def lazy_fact(src):
+    """Locale's lazily built attributes (tested with `is None`): inside every method, is the attribute assigned only once its value is complete?
+    False when an empty container is assigned to it, or when it is mutated (append / update / item assignment …) after the assignment."""
+    tree = ast.parse(src)
+    cls = [n for n in ast.walk(tree) if isinstance(n, ast.ClassDef) and n.name == "Locale"][0]
+    lazy = set()
+    for n in ast.walk(cls):
+        if isinstance(n, ast.Compare) and isinstance(n.ops[0], ast.Is) and isinstance(n.comparators[0], ast.Constant) and n.comparators[0].value is None:
+            t = ast.unparse(n.left)
+            if t.startswith("self._"):
+                lazy.add(t)
+    MUT = {"append", "extend", "update", "add", "insert", "setdefault", "pop", "remove", "clear", "sort", "reverse"}
+    state = {"ok": True}
+
+    def visit(stmts, published):
+        for st in stmts:
+            own = [st] if not hasattr(st, "body") else [getattr(st, "test", None), getattr(st, "iter", None)]
+            for e in own:
+                if e is None:
+                    continue
+                for x in ast.walk(e):
+                    if isinstance(x, ast.Call) and isinstance(x.func, ast.Attribute) and x.func.attr in MUT and ast.unparse(x.func.value) in published:
+                        state["ok"] = False
+                    if isinstance(x, ast.Subscript) and isinstance(x.ctx, (ast.Store, ast.Del)) and ast.unparse(x.value) in published:
+                        state["ok"] = False
+                    if isinstance(x, ast.AugAssign) and ast.unparse(x.target) in published:
+                        state["ok"] = False
+            if isinstance(st, ast.Assign):
+                for t in st.targets:
+                    if ast.unparse(t) in lazy:
+                        v = st.value
+                        if isinstance(v, (ast.List, ast.Dict, ast.Set)) and not (getattr(v, "elts", None) or getattr(v, "keys", None)):
+                            state["ok"] = False
+                        published.add(ast.unparse(t))
+            for part in ("body", "orelse", "finalbody"):
+                if hasattr(st, part):
+                    visit(getattr(st, part), published)
+            if isinstance(st, ast.Try):
+                for h in st.handlers:
+                    visit(h.body, published)
+    for fn in cls.body:
+        if isinstance(fn, ast.FunctionDef) and fn.name != "__init__":
+            visit(fn.body, set())
+    return state["ok"], len(lazy)
+
 # ----------------------------------------------------------------------------- constants
 def gen_consts():
     L = []
@@ -311,6 +357,13 @@ def gen_consts():
     emit("/-- freshness_date_parser.py parse: period 'time' is decided by `old_date != date` (true) or by a clock time having been parsed (false) -/\ndef freshTimePeriodByChange : Bool := " + lbool(bool(byc)))
     SL("freshPeriodKeys", [c for n in ast.walk(f.func("FreshnessDateDataParser._parse_date")) if isinstance(n, ast.For) for c in const_eval(n.iter)], "freshness _parse_date period keys")
 
+    # the pytz branch of _parse_date: how the shift is split, and whether localize gets the reference's DST flag
+    fp = f.func("FreshnessDateDataParser._parse_date")
+    parts = {ast.unparse(n.targets[0]): ast.unparse(n.value) for n in ast.walk(fp) if isinstance(n, ast.Assign) and ast.unparse(n.targets[0]) in ("calendar_part", "clock_part")}
+    by_units = len(parts) == 2 and all("kwargs" in v and "td." not in v for v in parts.values())
+    hint = any(isinstance(n, ast.Call) and ast.unparse(n.func).endswith("tz.localize") and any(k.arg == "is_dst" and "now.dst()" in ast.unparse(k.value) for k in n.keywords) for n in ast.walk(fp))
+    emit("/-- freshness_date_parser.py _parse_date (pytz branch): the calendar / clock split is made on the units the phrase counts (kwargs), not on the normalised relativedelta -/\ndef freshSplitByPhraseUnits : Bool := " + lbool(by_units))
+    emit("/-- freshness_date_parser.py _parse_date (pytz branch): `tz.localize` is given the reference's DST flag -/\ndef freshLocalizeUsesDstHint : Bool := " + lbool(hint))
     t = Src("dateparser/timezone_parser.py")
     emit("/-- timezone_parser.py _load_offsets: exception names caught around the cache read -/")
     emit("def exceptLoadOffsets : List (List String) := " + llist(except_names(t.func("_load_offsets")), llist))
@@ -367,6 +420,10 @@ def gen_consts():
     emit("/-- loader.py _construct_locales: a language without the requested region falls back to the plain language (is not dropped) -/\ndef loaderFallsBack : Bool := " + lbool("_filter_valid_locales(" not in ast.unparse(ldr.func("_construct_locales"))))
     lc = Src("dateparser/languages/locale.py")
     RX("reNumeralPattern", regex_of(lc.assign("NUMERAL_PATTERN")), "locale.py NUMERAL_PATTERN")
+    ok_lazy, n_lazy = lazy_fact(lc.text)
+    emit("/-- locale.py Locale: no lazily built attribute (`if self._x is None: ...`) is assigned empty and filled afterwards, or modified after it has been assigned to `self` -/\ndef lazyAttrsPublishComplete : Bool := " + lbool(ok_lazy and n_lazy >= 5))
+    emit("/-- locale.py Locale: number of lazily built attributes the fact above was read from -/\ndef lazyAttrCount : Nat := %d" % n_lazy)
+
     # translate_search: constants and the shape of the two-token look-ahead test
     ts = lc.func("Locale.translate_search")
     SL("tsDashes", const_eval(lc.assign("dashes", "Locale.translate_search")), "locale.py translate_search dashes")
